@@ -211,6 +211,10 @@ def run_opt(spec, rec, dadi):
                 # only upper bounds are left open: the synthetic models turn negative (an undefined likelihood) when a
                 # scale parameter is allowed below zero, which says nothing about the optimiser wrappers
                 ubu[j] = None
+            # one-sided bounds: no upper-bound list at all (the lower bounds must still hold)
+            one_sided = bool(rng.random() < 0.15) and oname not in ("optimize_grid", "optimize_log_lbfgsb", "optimize_lbfgsb")
+            if one_sided:
+                ubu = None
             desc = {"optimiser": oname, "npar": npar, "ns": ns, "p0": p0, "lb": lbu, "ub": ubu, "fixed": fixed, "multinom": multinom,
                     "start": startkind}
             nfree = npar - len(fx)
@@ -225,10 +229,10 @@ def run_opt(spec, rec, dadi):
                           "output_file": os.path.join(os.environ.get("VERIF_BATCH_SCRATCH", "."), "opt-%d-%d.txt" % (ci, oi))}
                 data = (data * extras["func_args"][0] + extras["func_kwargs"]["shift"]) if not multinom else \
                     (f(ptrue, ns, None) * extras["func_args"][0] + extras["func_kwargs"]["shift"]) * float(rng.uniform(0.5, 40))
-            tags = {"optimiser": oname, "multinom": multinom, "start": startkind, "fixed": bool(fx), "none_bounds": none_bounds, "extras": extras is not None}
+            tags = {"optimiser": oname, "multinom": multinom, "start": startkind, "fixed": bool(fx), "none_bounds": none_bounds, "extras": extras is not None, "no_upper_bounds": ubu is None}
             site = "Inference." + (oname if not oname.startswith("opt-") else "opt")
             recm = Recorder(f)
-            p0_in, lb_in, ub_in = list(p0), list(lbu), list(ubu)
+            p0_in, lb_in, ub_in = list(p0), list(lbu), (list(ubu) if ubu is not None else None)
             fixed_in = list(fixed) if fixed is not None else None
             ok, res = rec.noraise("returns:" + oname, lambda: call_optimiser(dadi, oname, p0_in, data, recm, lb_in, ub_in, fixed_in, multinom, rng, extras),
                                   site=site, tags=tags)
@@ -256,7 +260,7 @@ def run_opt(spec, rec, dadi):
                           observed=hist[0], expected=start_full)
             H = np.array(hist)
             lo = np.array([(-np.inf if v is None else v) for v in lbu])
-            hi = np.array([(np.inf if v is None else v) for v in ubu])
+            hi = np.array([(np.inf if v is None else v) for v in (ubu if ubu is not None else [None] * npar)])
             slack = 1e-12 * np.maximum(1.0, np.abs(H))
             inb = np.all((H >= lo - slack) & (H <= hi + slack), axis=1)
             bad = np.where(~inb)[0]
@@ -293,7 +297,7 @@ def run_opt(spec, rec, dadi):
                     rec.check("no-worse-than-start:" + oname, llx >= ll0 - 1e-9 * max(1.0, abs(ll0)), site=site, tags=tags,
                               observed={"ll_start": ll0, "ll_returned": llx})
             # arguments are not modified
-            same = (p0_in == list(p0) and lb_in == list(lbu) and ub_in == list(ubu) and (fixed_in == (list(fixed) if fixed is not None else None)))
+            same = (p0_in == list(p0) and lb_in == list(lbu) and ub_in == (list(ubu) if ubu is not None else None) and (fixed_in == (list(fixed) if fixed is not None else None)))
             rec.check("arguments-untouched:" + oname, bool(same), site=site, tags=tags)
 
 
